@@ -4,8 +4,43 @@ RUN_TARGETS = ['Run/MathOps.vo']
 TRUSTED = ['hand model coq/Base/Mat.v (cofactors regenerated from mt4.rs by gen/gen_mt4.py into coq/Gen/Mt4Cof.v) tied by the differential run',
            'theorems over R; inverse "to rounding" is the R/binary64 gap, measured not proved']
 ASSUMPTIONS = ['stdlib real-number axioms', 'float reading: Coq primitive binary64 = Rust f64 for + - * / sqrt and comparisons']
+def mat(a):  # column-major flat -> rows
+    return [[a[c * 4 + r] for c in range(4)] for r in range(4)]
+def mmul(A, B):
+    return [[sum(A[i][k] * B[k][j] for k in range(4)) for j in range(4)] for i in range(4)]
+def inverse_oracle(case):
+    """property-level oracle on the implementation's own output: A * inverse(A) = inverse(A) * A = I to rounding,
+    and None only for singular input (exact rational determinant)"""
+    from fractions import Fraction
+    op, args, res = case
+    if op != 108 or res is None: return None
+    import math
+    if any(math.isinf(x) or math.isnan(x) for x in args): return None
+    A = mat(args)
+    FA = [[Fraction(x) for x in row] for row in A]
+    def det(M):
+        n = len(M)
+        if n == 1: return M[0][0]
+        return sum((-1) ** j * M[0][j] * det([r[:j] + r[j + 1:] for r in M[1:]]) for j in range(n))
+    d = det(FA)
+    if res[0] == 0.0:
+        if d != 0 and abs(float(d)) > 1e-6 * max(1.0, max(abs(x) for x in args)) ** 4:
+            return {'clause': 'inverse_none_iff_singular', 'key': 'inv_none', 'matrix_column_major': args, 'exact_determinant': float(d), 'implementation': 'None'}
+        return None
+    inv = mat(res[1:])
+    if any(math.isinf(x) or math.isnan(x) for x in res): return None
+    na = max(abs(x) for x in args); ni = max(abs(x) for x in res[1:])
+    tol = 1e-7 * (1 + 16 * na * ni)
+    for name, P in (('A*inv', mmul(A, inv)), ('inv*A', mmul(inv, A))):
+        for i in range(4):
+            for j in range(4):
+                if abs(P[i][j] - (1.0 if i == j else 0.0)) > tol:
+                    return {'clause': 'inverse_is_two_sided', 'key': 'inv', 'matrix_column_major': args, 'implementation_inverse': res[1:],
+                            'product': name, 'entry': [i, j], 'value': P[i][j], 'tolerance': tol}
+    return None
+
 def run(ctx):
     n = 1500 if ctx['tier'] == 'quick' else 30000
-    return mathprop.run_ranges('C09', [(100, 103), (108, 108), (110, 115)], n, ctx['seed'])
+    return mathprop.run_ranges('C09', [(100, 103), (108, 108), (110, 115)], n, ctx['seed'], oracle=inverse_oracle)
 def match_known(f, known): return None
 def replay(path): return mathprop.replay('C09', path)
